@@ -2,32 +2,32 @@ SPECIFICATION MCSpec
 CONSTANTS
   MaxW = 3
   Keys = {1, 2}
-  MaxJ = 4
+  MaxJ = 3
   MaxInc = 5
   LbBig = 1000
-  FixRetire = TRUE
+  FixRetire = FALSE
   Routing0 = "keyp"
   Workers0 = 2
   Lim0 <- Lim1
   Mode0 = "oldest"
   RlOn = FALSE
-  RlRefill = 1
-  RlInterval = 2
-  RlMax = 1
-  JobKeys <- Keys1121
-  JobTtl <- NoTtl4
-  PortJobs = {2}
-  Ends = {"ok", "panic"}
-  MaxKills = 1
-  MaxFaults = 1
-  Resizes <- Res1
-  MayDrain = FALSE
+  RlRefill = 0
+  RlInterval = 0
+  RlMax = 0
+  JobKeys <- Keys111
+  JobTtl <- NoTtl3
+  PortJobs = {}
+  Ends = {"ok", "killmid"}
+  MaxKills = 0
+  MaxFaults = 2
+  Resizes <- Res0
+  MayDrain = TRUE
   MaxT = 0
   TStep = 1
-  RetryJobs = {}
-  Retries = 0
+  RetryJobs = {1, 3}
+  Retries = 2
   FreeOrder = FALSE
 INVARIANTS
   OneFate PortOk LostOnePerDeath NoFactoryPanic KeyExclusive KeyFifo OneAtATime HashInPool RoundRobinCovers QueuerNoIdle ViewExact
-  NeverDrainingSlotReplaced QueueBound HookOrder PoolConverges DrainComplete DrainRefuses
+  RetryBudget QueueBound HookOrder PoolConverges DrainComplete DrainRefuses
 CHECK_DEADLOCK FALSE
